@@ -41,6 +41,12 @@ class Proxy(object):
         return r
 
     def flush(self):
+        self.nf = getattr(self, "nf", 0) + 1
+        if spec.get("flush_fault") == self.nf:
+            # a transient I/O fault: the flush raises and nothing leaves the process's buffer
+            import errno
+            say("x")
+            raise OSError(errno.ENOSPC, "No space left on device (injected, once)")
         say("f")
         self.real.flush()
         if spec.get("kill") == [self.n, "after_flush"]:
